@@ -47,6 +47,23 @@ pub fn gen_matrix(rng: &mut Rng, ring: &str) -> Value {
     let (m, n) = (dims(rng, 24), dims(rng, 24));
     let mut entries: Vec<Value> = vec![];
     match family {
+        0..=4 if matches!(ring, "Z" | "ZB" | "F2" | "F3" | "F7") && rng.chance(1, 60) => {
+            // large square sparse: a few hundred rows with 3-7 entries each (mostly units), far more
+            // rows per simulated worker than any other family (state kept per worker across rows)
+            let n = 260 + rng.below(240) as usize;
+            let per_row = 3 + rng.below(5);
+            for i in 0..n {
+                for _ in 0..per_row {
+                    let j = rng.below(n as u64) as usize;
+                    if !entries.iter().rev().take(8).any(|e: &Value| e[0] == json!(i) && e[1] == json!(j)) {
+                        let kind = if rng.chance(5, 6) { 1 } else { 0 };
+                        entries.push(json!([i, j, gen_val(rng, ring, kind)]));
+                    }
+                }
+            }
+            entries.retain(|e| !is_zero_val(ring, &e[2]));
+            return json!({ "m": n, "n": n, "entries": entries });
+        }
         0..=4 => {
             // random sparse
             let dens = *rng.pick(&[5u64, 10, 15, 25, 40, 55, 70]);
